@@ -36,8 +36,16 @@ ReadMethods == {"blockNumber", "blockHashAndNumber", "getBlockWithTxHashes", "ge
                 "getBlockTransactionCount", "getStateUpdate", "getTransactionByHash", "getTransactionReceipt",
                 "getTransactionStatus", "getTransactionByBlockIdAndIndex", "getStorageAt", "getNonce",
                 "getClassHashAt", "getClassAt", "getClass"}
-MkRead(m, id, t, i, c, k, s) ==
+FlaggedMethods == {"getBlockWithTxs", "getBlockWithReceipts", "getTransactionByHash",
+                   "getTransactionByBlockIdAndIndex", "getStorageAt"}
+(* f: response flags of the request in flight ("none" = parameter omitted; well-formed flags only) *)
+MkRead(m, id, t, i, c, k, s, f) ==
   CASE m \in {"blockNumber", "blockHashAndNumber"} -> NoArg(m)
+    [] m \in FlaggedMethods /\ f # "none" ->
+         CASE m = "getTransactionByHash" -> [name |-> m, t |-> t, fl |-> f]
+           [] m = "getTransactionByBlockIdAndIndex" -> [name |-> m, id |-> id, i |-> i, fl |-> f]
+           [] m = "getStorageAt" -> [name |-> m, id |-> id, c |-> c, s |-> s, fl |-> f]
+           [] OTHER -> [name |-> m, id |-> id, fl |-> f]
     [] m \in {"getTransactionByHash", "getTransactionReceipt", "getTransactionStatus"} -> [name |-> m, t |-> t]
     [] m = "getTransactionByBlockIdAndIndex" -> [name |-> m, id |-> id, i |-> i]
     [] m = "getStorageAt" -> [name |-> m, id |-> id, c |-> c, s |-> s]
@@ -56,8 +64,8 @@ InFlight ==
   /\ en # {}
   /\ \E sh \in R({ShapeOf(ms) : ms \in en}) : \E ms \in R({x \in en : ShapeOf(x) = sh}) :
        \E m \in R(ReadMethods), id \in R(HeadIds), t \in R(HeadTx), i \in R(0..3), c \in R(Contracts),
-          k \in R(Classes), s \in R(Slots) :
-         ReadDuring(MkRead(m, id, t, i, c, k, s), ms)
+          k \in R(Classes), s \in R(Slots), f \in R({"none", "empty", "own"}) :
+         ReadDuring(MkRead(m, id, t, i, c, k, s, f), ms)
 
 (* the head is reorganised away AND BACK while the request is in flight (the replayer lets the
    request go while the fork block is stored): whatever the request computed from the fork must not
@@ -66,8 +74,39 @@ ThereAndBack ==
   /\ chain # <<>> /\ reverts + 2 <= MaxReverts
   /\ LET v == Last(chain) IN
      \E m \in R(ReadMethods), id \in R(HeadIds), t \in R(HeadTx), i \in R(0..3), c \in R(Contracts),
-        k \in R(Classes), s \in R(Slots) :
-       ReadDuring(MkRead(m, id, t, i, c, k, s), <<RevertMut, StoreMut(1 - v), RevertMut, StoreMut(v)>>)
+        k \in R(Classes), s \in R(Slots), f \in R({"none", "empty", "own"}) :
+       ReadDuring(MkRead(m, id, t, i, c, k, s, f), <<RevertMut, StoreMut(1 - v), RevertMut, StoreMut(v)>>)
+
+(* identifiers that denote a block of the chain held now, by every kind *)
+HeldIds == {NumId(n) : n \in 0..(Len(chain) - 1)} \cup {HashId(Prefix(chain, n)) : n \in 1..Len(chain)}
+           \cup {TagId("latest")} \cup (IF l1 # -1 THEN {TagId("l1_accepted")} ELSE {})
+(* guidance for last_update_block: ask, with the flag, for a slot of a deployed contract at a block the
+   chain holds - most interesting where the answer is neither the block asked for nor "never" *)
+LubTargets ==
+  {x \in HeldIds \X Contracts \X Slots :
+     LET n == DResolve(x[1])
+         st == StateTab[Prefix(chain, n + 1)]
+     IN /\ st.class[x[2]] # NoClass
+        /\ \/ DLubIn(chain, n, x[2], x[3]) < n                                   \* last written below the block asked for
+           \/ st.stor[x[2]][x[3]] = 0 /\ DLubIn(chain, n, x[2], x[3]) > 0         \* zero now, but written
+           \/ st.stor[x[2]][x[3]] = 0 /\ WroteSlot(<<chain[1]>>, x[2], x[3])}     \* (a zero write in block 0)
+LubProbe ==
+  /\ chain # <<>>
+  /\ \/ \E id \in R(HeldIds), c \in R(Contracts), s \in R(Slots) : GetStorageAtF(id, c, s, "own")
+     \/ /\ LubTargets # {}
+        /\ \E x \in R(LubTargets) : GetStorageAtF(x[1], x[2], x[3], "own")
+(* ... and for proof facts: a transaction object of a block the chain holds *)
+HeldTx == UNION {{TxsOf(Prefix(chain, n))[i] : i \in 1..Len(TxsOf(Prefix(chain, n)))} : n \in 1..Len(chain)}
+PfProbe ==
+  /\ HeldTx # {}
+  /\ \/ \E t \in R(HeldTx) : GetTransactionByHashF(t, "own")
+     \/ \E id \in R(HeldIds), i \in R(0..3) : GetTransactionByBlockIdAndIndexF(id, i, "own")
+     \/ \E id \in R(HeldIds) : GetBlockWithTxsF(id, "own") \/ GetBlockWithReceiptsF(id, "own")
+
+(* the response_flags of one request of a method that has the parameter: omitted in 2 of 5 (v0.8 / v0.9
+   are asked without it in any case), the empty list, the method's flag, something ill-formed *)
+FlagOf == <<"none", "none", "empty", "own", "bad">>
+RFlag(n) == {FlagOf[RandomElement(1..n)]}   \* (parameterised: TLC evaluates a constant definition only once)
 
 AllNext ==
   \/ \E v \in Variants : Store(v)
@@ -79,30 +118,42 @@ AllNext ==
   \/ ThereAndBack
   \/ BlockNumber \/ BlockHashAndNumber
   \/ \E k \in R(1..9) : \E id \in R(IdsOfKind(k)) : GetBlockWithTxHashes(id)
-  \/ \E k \in R(1..9) : \E id \in R(IdsOfKind(k)) : GetBlockWithTxs(id)
-  \/ \E k \in R(1..9) : \E id \in R(IdsOfKind(k)) : GetBlockWithReceipts(id)
+  \/ \E k \in R(1..9), f \in RFlag(5) : \E id \in R(IdsOfKind(k)) : GetBlockWithTxsF(id, f)
+  \/ \E k \in R(1..9), f \in RFlag(5) : \E id \in R(IdsOfKind(k)) : GetBlockWithReceiptsF(id, f)
   \/ \E k \in R(1..9) : \E id \in R(IdsOfKind(k)) : GetBlockTransactionCount(id)
   \/ \E k \in R(1..9) : \E id \in R(IdsOfKind(k)) : GetStateUpdate(id)
-  \/ \E k \in R(1..9) : \E id \in R(IdsOfKind(k)), i \in R(IdxArgs) : GetTransactionByBlockIdAndIndex(id, i)
-  \/ \E k \in R(1..9) : \E id \in R(IdsOfKind(k)), c \in R(CArgs), s \in R(Slots) : GetStorageAt(id, c, s)
+  \/ \E k \in R(1..9), f \in RFlag(5) : \E id \in R(IdsOfKind(k)), i \in R(IdxArgs) :
+       GetTransactionByBlockIdAndIndexF(id, i, f)
+  \/ \E k \in R(1..9), f \in RFlag(5) : \E id \in R(IdsOfKind(k)), c \in R(CArgs), s \in R(Slots) :
+       GetStorageAtF(id, c, s, f)
   \/ \E k \in R(1..9) : \E id \in R(IdsOfKind(k)), c \in R(CArgs) : GetNonce(id, c)
   \/ \E k \in R(1..9) : \E id \in R(IdsOfKind(k)), c \in R(CArgs) : GetClassHashAt(id, c)
   \/ \E k \in R(1..9) : \E id \in R(IdsOfKind(k)), c \in R(CArgs) : GetClassAt(id, c)
   \/ \E k \in R(1..9) : \E id \in R(IdsOfKind(k)), c \in R(KArgs) : GetClass(id, c)
-  \/ \E t \in R(SeenTx) : GetTransactionByHash(t)
+  \/ \E t \in R(SeenTx), f \in RFlag(5) : GetTransactionByHashF(t, f)
   \/ \E t \in R(SeenTx) : GetTransactionReceipt(t)
   \/ \E t \in R(SeenTx) : GetTransactionStatus(t)
-  \/ \E t \in R(DroppedTx) : GetTransactionByHash(t)
+  \/ \E t \in R(DroppedTx), f \in RFlag(5) : GetTransactionByHashF(t, f)
   \/ \E t \in R(DroppedTx) : GetTransactionReceipt(t)
   \/ \E t \in R(DroppedTx) : GetTransactionStatus(t)
 
 (* guidance: most behaviours start by building a chain (reads on the empty chain stay possible) *)
-SimNext == IF steps < 3 /\ RandomElement(1..4) # 1 THEN \E v \in R(Variants) : Store(v) ELSE AllNext
+SimNext == IF steps < 3 /\ RandomElement(1..4) # 1 THEN \E v \in R(Variants) : Store(v)
+           ELSE \E d \in R(1..12) :
+                IF d = 1 /\ chain # <<>> THEN LubProbe
+                ELSE IF d = 2 /\ HeldTx # {} THEN PfProbe
+                ELSE AllNext
 
 Step ==
   /\ SimNext
   /\ steps' = steps + 1
-  /\ hist' = Append(hist, [a |-> act', res |-> res', want |-> want', chain |-> chain', l1 |-> l1'])
+  \* want0 / res0: what the same request WITHOUT response_flags must be / is (by the model of the code)
+  \* answered: v0.8 / v0.9 are sent that one (a read leaves the database as it is: IRes needs no primes)
+  /\ hist' = Append(hist, [a |-> act', res |-> res', want |-> want', chain |-> chain', l1 |-> l1',
+                            want0 |-> IF IsRead(act') /\ "fl" \in DOMAIN act'
+                                      THEN DWantIn(chain', l1', Unflag(act')) ELSE NoRes,
+                            res0 |-> IF IsRead(act') /\ "fl" \in DOMAIN act'
+                                     THEN IRes(Unflag(act')) ELSE NoRes])
 
 Emit ==
   /\ PrintT(ToJson(hist))
@@ -110,6 +161,7 @@ Emit ==
   /\ byNum' = [n \in Nums |-> NoPath]
   /\ numByHash' = [h \in HashIds |-> -1]
   /\ txIdx' = [t \in AllTx \cup {BogusTx} |-> NoIdx]
+  /\ slog' = [k \in SlotKeys |-> {}] /\ llog' = [k \in SlotKeys |-> {}]
   /\ l1' = -1 /\ seen' = {} /\ reverts' = 0
   /\ act' = [name |-> "Init"] /\ res' = NoRes /\ want' = NoRes
   /\ hist' = <<>> /\ steps' = 0
